@@ -115,3 +115,45 @@ package s2
 //@   ensures [reindexed] vcSI(l.index) && l.index.nextID == 1 && l.index.status == stale
 //@   loop 1 (i int): invariant [range] -1 <= i && i < len(l.vertices)/2 && len(l.vertices) == old(len(l.vertices))
 //@   loop 1: invariant [swapped] forall k int :: 0 <= k && k < len(l.vertices) ==> vcSame(l.vertices[k], vcIf(k > i && k < len(l.vertices)-1-i, vcPreElem(old(l.vertices), len(l.vertices)-1-k), vcPreElem(old(l.vertices), k)))
+
+// ---------------------------------------------------------------- the index path of a polygon (edges come from the Shape interface)
+
+// parity over the first k clipped edges, each edge taken from the shape
+//@ spec func vcShapeParity(sh Shape, edges []int, o Point, p Point, k int) bool = k > 0 && (vcShapeParity(sh, edges, o, p, k-1) != vcEOV(o, p, sh.Edge(edges[k-1]).V0, sh.Edge(edges[k-1]).V1))
+//@   decreases k
+
+// The crosser's non-chain entry point continues the chain when the new edge starts at a point that compares equal to the
+// end of the previous one. Two points that compare equal but differ in the sign of a zero coordinate would make it use
+// the other representation; the data precondition below excludes that (a vertex shared by consecutive edges is one
+// stored Point), as does "the first edge does not start at the zero vector".
+//@ spec func vcSharedEndpointsIdentical(sh Shape, edges []int) bool =
+//@    (len(edges) > 0 ==> (sh.Edge(edges[0]).V0 == (Point{}) ==> vcSame(sh.Edge(edges[0]).V0, Point{}))) &&
+//@    (forall k int :: 0 < k && k < len(edges) ==> (sh.Edge(edges[k]).V0 == sh.Edge(edges[k-1]).V1 ==> vcSame(sh.Edge(edges[k]).V0, sh.Edge(edges[k-1]).V1)))
+
+//@ func (p *Polygon) iteratorContainsPoint(it *ShapeIndexIterator, point Point) bool
+//@   absmod
+//@   requires p != nil && p.index != nil && p.index.shapes != nil && it != nil && it.cell != nil && len(it.cell.shapes) >= 1 && it.cell.shapes[0] != nil && it.cell.shapes[0].shapeID == 0
+//@   requires forall k int :: 0 <= k && k < len(it.cell.shapes) ==> it.cell.shapes[k] != nil
+//@   requires p.index.Shape(0) != nil && vcSharedEndpointsIdentical(p.index.Shape(0), it.cell.shapes[0].edges)
+//@   ensures [parity] result == (it.cell.shapes[0].containsCenter != vcShapeParity(p.index.Shape(0), it.cell.shapes[0].edges, it.Center(), point, len(it.cell.shapes[0].edges)))
+//@   loop 1 (rangeindex int, inside bool, crosser *EdgeCrosser, aClipped *clippedShape, shape Shape): invariant [range] -1 <= rangeindex && rangeindex < len(aClipped.edges)
+//@   loop 1: invariant [crosser] vcCrosserInv(crosser) && vcSame(crosser.a, it.Center()) && vcSame(crosser.b, point)
+//@   loop 1: invariant [chain] (rangeindex >= 0 ==> vcSame(crosser.c, shape.Edge(aClipped.edges[rangeindex]).V1)) && (rangeindex < 0 ==> vcSame(crosser.c, Point{}))
+//@   loop 1: invariant [parity] inside == (aClipped.containsCenter != vcShapeParity(shape, aClipped.edges, it.Center(), point, rangeindex+1))
+
+// ---------------------------------------------------------------- ContainsPointQuery: one clipped shape of the located cell
+
+// For a polygon (dimension 2) under the semi-open vertex model the answer is the cell-centre bit XOR the crossing parity
+// over the clipped edges (the same function Loop and Polygon compute); without clipped edges it is the centre bit;
+// points and polylines contain nothing unless the model is closed.
+//@ func (q *ContainsPointQuery) shapeContains(clipped *clippedShape, center, p Point) bool
+//@   absmod
+//@   requires q != nil && q.index != nil && q.index.shapes != nil && clipped != nil && q.index.Shape(clipped.shapeID) != nil
+//@   requires vcSharedEndpointsIdentical(q.index.Shape(clipped.shapeID), clipped.edges)
+//@   ensures [no-edges] len(clipped.edges) == 0 ==> result == clipped.containsCenter
+//@   ensures [lower-dimension] len(clipped.edges) > 0 && q.index.Shape(clipped.shapeID).Dimension() != 2 && q.model != VertexModelClosed ==> !result
+//@   ensures [semi-open-polygon] len(clipped.edges) > 0 && q.index.Shape(clipped.shapeID).Dimension() == 2 && q.model == VertexModelSemiOpen ==> result == (clipped.containsCenter != vcShapeParity(q.index.Shape(clipped.shapeID), clipped.edges, center, p, len(clipped.edges)))
+//@   loop 2 (rangeindex int, inside bool, crosser *EdgeCrosser, shape Shape): invariant [range] -1 <= rangeindex && rangeindex < len(clipped.edges)
+//@   loop 2: invariant [crosser] vcCrosserInv(crosser) && vcSame(crosser.a, center) && vcSame(crosser.b, p)
+//@   loop 2: invariant [chain] (rangeindex >= 0 ==> vcSame(crosser.c, shape.Edge(clipped.edges[rangeindex]).V1)) && (rangeindex < 0 ==> vcSame(crosser.c, Point{}))
+//@   loop 2: invariant [parity] q.model == VertexModelSemiOpen ==> inside == (clipped.containsCenter != vcShapeParity(shape, clipped.edges, center, p, rangeindex+1))
